@@ -18,7 +18,7 @@ function, method (with receiver kind), package variable and constant, its numeri
 package variables it reads and its writes through parameters or the receiver (including in-place
 `sort.*`/`copy`/`append`). The entries behind the digest are in `shape_expected.txt` and in a
 comment of the generated file. -/
-def stateC18 : List (String × String) := [("globals:graph", ""), ("globals:graphalg", ""), ("globals:graphout", ""), ("globalwrites:graph", ""), ("globalwrites:graphalg", ""), ("globalwrites:graphout", ""), ("fields:graphalg.NodeMarks", "marks:[]uint32"), ("fields:graphalg.SCCGraph", "subnodes:[]int subnodeIndexes:[]int subnodeComponent:[]int out:[]int outIndexes:[]int"), ("fields:graphalg.Euler", "Enter:func(nint) Exit:func(nint)"), ("fields:graphalg.simplified", "indexes:[]int edges:[]int weights:[]float64"), ("fields:graph.bigraph", "(embedded):Graph preds:[][]int"), ("fields:graph.listSubgraph", "underlying:Graph nodes:[]listSubgraphNode"), ("fields:graph.listSubgraphNode", "out:[]int oldNode:int oldEdges:[]int"), ("fields:graphout.Dot", "Name:string Label:func(nodeint)string NodeAttrs:func(nodeint)[]DotAttr EdgeAttrs:func(node,edgeint)[]DotAttr"), ("fields:graphout.DotAttr", "Name:string Val:interface{}"), ("shape:C18", "n=42 fnv64a=762d707dfd44ca47")]
+def stateC18 : List (String × String) := [("globals:graph", ""), ("globals:graphalg", ""), ("globals:graphout", ""), ("globalwrites:graph", ""), ("globalwrites:graphalg", ""), ("globalwrites:graphout", ""), ("fields:graphalg.NodeMarks", "marks:[]uint32"), ("fields:graphalg.SCCGraph", "subnodes:[]int subnodeIndexes:[]int subnodeComponent:[]int out:[]int outIndexes:[]int"), ("fields:graphalg.Euler", "Enter:func(nint) Exit:func(nint)"), ("fields:graphalg.simplified", "indexes:[]int edges:[]int weights:[]float64"), ("fields:graph.bigraph", "(embedded):Graph preds:[][]int"), ("fields:graph.listSubgraph", "underlying:Graph nodes:[]listSubgraphNode"), ("fields:graph.listSubgraphNode", "out:[]int oldNode:int oldEdges:[]int"), ("fields:graphout.Dot", "Name:string Label:func(nodeint)string NodeAttrs:func(nodeint)[]DotAttr EdgeAttrs:func(node,edgeint)[]DotAttr"), ("fields:graphout.DotAttr", "Name:string Val:interface{}"), ("shape:C18", "n=42 fnv64a=c10447944d7bf105")]
 
 /-- the source has exactly the package-level variables, writers and struct fields the model accounts for -/
 theorem state_C18 : holdsAll stateC18 = true := by decide +kernel
